@@ -9,6 +9,7 @@ package main
 
 import (
 	"bufio"
+	"context"
 	"encoding/json"
 	"fmt"
 	"mime"
@@ -17,6 +18,7 @@ import (
 	"path/filepath"
 	"runtime/debug"
 	"strings"
+	"time"
 
 	"goa.design/goa/v3/expr"
 
@@ -58,6 +60,9 @@ func tierAPools(rng *vh.RNG, n int) []*Pool {
 // under one name it does not define, and a collection of the type under one of its views.
 func projections(p *Pool, r *vh.RNG) (out []ProjObs) {
 	for _, t := range p.Types {
+		if t.Plain {
+			continue
+		}
 		for _, v := range t.Views {
 			out = append(out, ProjObs{Type: t.Name, View: v.Name})
 		}
@@ -68,7 +73,8 @@ func projections(p *Pool, r *vh.RNG) (out []ProjObs) {
 }
 
 // dumpProjected renders a projected result type to depth k in Views.Model.ptree syntax.
-// Node labels (original type, view) are read back from the projected identifier.
+// Node labels (original type, view) are read back from the projected identifier; plain user
+// types are labelled with their type name.
 func dumpProjected(rt *expr.ResultTypeExpr, k int, byID map[string]string) string {
 	if k == 0 {
 		return "PCut"
@@ -85,30 +91,54 @@ func dumpProjected(rt *expr.ResultTypeExpr, k int, byID map[string]string) strin
 	if obj == nil || expr.IsArray(rt.Type) {
 		return "PErr"
 	}
-	fs := "PNil"
-	for i := len(*obj) - 1; i >= 0; i-- {
-		nat := (*obj)[i]
-		sub := "PLeaf"
-		if nrt, ok := nat.Attribute.Type.(*expr.ResultTypeExpr); ok {
-			if arr, isArr := nrt.Type.(*expr.Array); isArr {
-				if ert, ok := arr.ElemType.Type.(*expr.ResultTypeExpr); ok {
-					sub = "(PColl " + dumpProjected(ert, k-1, byID) + ")"
-				} else {
-					sub = "PErr"
-				}
-			} else {
-				sub = dumpProjected(nrt, k-1, byID)
-			}
-		}
-		fs = fmt.Sprintf("(PCons %s %s %s)", coqA(nat.Name), sub, fs)
-	}
 	var req []string
 	if rt.Validation != nil {
 		for _, n := range rt.Validation.Required {
 			req = append(req, coqA(n))
 		}
 	}
-	return fmt.Sprintf("(PObj %s %s %s %s)", coqT(tn), coqV(params["view"]), fs, vh.CoqList(req))
+	return fmt.Sprintf("(PObj %s %s %s %s)", coqT(tn), coqV(params["view"]), dumpFields(obj, k, byID), vh.CoqList(req))
+}
+
+func dumpFields(obj *expr.Object, k int, byID map[string]string) string {
+	fs := "PNil"
+	for i := len(*obj) - 1; i >= 0; i-- {
+		nat := (*obj)[i]
+		fs = fmt.Sprintf("(PCons %s %s %s)", coqA(nat.Name), dumpType(nat.Attribute.Type, k-1, byID), fs)
+	}
+	return fs
+}
+
+// dumpType renders what an attribute points to: a node behind its wrapper, or a leaf.
+func dumpType(dt expr.DataType, k int, byID map[string]string) string {
+	switch t := dt.(type) {
+	case *expr.ResultTypeExpr:
+		if arr, isArr := t.Type.(*expr.Array); isArr {
+			if ert, ok := arr.ElemType.Type.(*expr.ResultTypeExpr); ok {
+				return "(PColl " + dumpProjected(ert, k, byID) + ")"
+			}
+			return "PErr"
+		}
+		return dumpProjected(t, k, byID)
+	case *expr.UserTypeExpr:
+		if k == 0 {
+			return "PCut"
+		}
+		obj := expr.AsObject(t.Type)
+		if obj == nil {
+			return "PLeaf"
+		}
+		return fmt.Sprintf("(PUser %s %s)", coqT(t.TypeName), dumpFields(obj, k, byID))
+	case *expr.Array:
+		if ert, ok := t.ElemType.Type.(*expr.ResultTypeExpr); ok {
+			return "(PArr " + dumpProjected(ert, k, byID) + ")"
+		}
+	case *expr.Map:
+		if ert, ok := t.ElemType.Type.(*expr.ResultTypeExpr); ok {
+			return "(PMap " + dumpProjected(ert, k, byID) + ")"
+		}
+	}
+	return "PLeaf"
 }
 
 // childTierA is the body of the child process.
@@ -161,6 +191,9 @@ func childTierA(poolsFile, outFile string, from int) {
 		byID := map[string]string{}
 		rts := map[string]*expr.ResultTypeExpr{}
 		for _, t := range p.Types {
+			if t.Plain {
+				continue
+			}
 			ut := expr.Root.UserType(t.Name)
 			rt, ok := ut.(*expr.ResultTypeExpr)
 			if !ok {
@@ -264,12 +297,19 @@ func runTierA(self, out string, pools []*Pool, rng *vh.RNG, res *vh.Result) (cas
 	}
 	var crashes []crash
 	for from < len(pools) && restarts < 25 {
-		cmd := exec.Command(self, "-child", "tiera", "-pools", pf, "-childout", of, "-from", fmt.Sprint(from))
+		// a projection may also run (almost) forever without overflowing the stack: bound the child
+		ctx, cancel := context.WithTimeout(context.Background(), childBudget(len(pools)-from))
+		cmd := exec.CommandContext(ctx, self, "-child", "tiera", "-pools", pf, "-childout", of, "-from", fmt.Sprint(from))
 		var stderr strings.Builder
 		cmd.Stderr = &stderr
 		err := cmd.Run()
+		timedOut := ctx.Err() != nil
+		cancel()
 		if err == nil {
 			break
+		}
+		if timedOut {
+			stderr.WriteString("stack overflow not reached: projection still running when the time budget ended")
 		}
 		restarts++
 		// find the last begin without a matching proj
@@ -297,7 +337,7 @@ func runTierA(self, out string, pools []*Pool, rng *vh.RNG, res *vh.Result) (cas
 	}
 	for _, c := range crashes {
 		sig := "project-crash"
-		if strings.Contains(c.stderrHead, "stack overflow") || strings.Contains(c.stderrHead, "stack exceeds") {
+		if strings.Contains(c.stderrHead, "stack overflow") || strings.Contains(c.stderrHead, "stack exceeds") || strings.Contains(c.stderrHead, "still running") {
 			sig = "project-nonterminating"
 		}
 		failSig(res, sig, fmt.Sprintf("expr.Project(%s, %q) killed the process: %s", c.typ, c.view, strings.ReplaceAll(c.stderrHead, "\n", " | ")),
@@ -387,4 +427,10 @@ func runTierA(self, out string, pools []*Pool, rng *vh.RNG, res *vh.Result) (cas
 	res.Extra["tierA_distinct"] = len(distinct)
 	res.Extra["tierA_child_restarts"] = restarts
 	return
+}
+
+// childBudget bounds one child run: generous for the honest case (a pool takes a few
+// milliseconds), short enough that a projection that neither ends nor overflows is reported.
+func childBudget(pools int) time.Duration {
+	return 40*time.Second + time.Duration(pools)*60*time.Millisecond
 }
